@@ -117,6 +117,12 @@ func (x *Exec) call(st *State, in ssa.Instruction, cc *ssa.CallCommon, res ssa.V
 		preReach, preN := st.reach, len(vc.lines)
 		results := x.applyContract(st, in, tgt, recv, args, sig, site, cc)
 		x.setResult(res, sig, results)
+		if res != nil && tgt.con.FlagResult {
+			if x.flagAlias == nil {
+				x.flagAlias = map[ssa.Value]bool{}
+			}
+			x.flagAlias[res] = true
+		}
 		if x.depth == 0 && os.Getenv("GVC_NOSITECOVER") == "" {
 			vc.oblige(&Obl{Name: x.prefix + "/cover/after_" + strings.ReplaceAll(site, " ", "_"), Kind: "cover", Props: x.props, Reach: st.reach, Goal: "false", Cover: true,
 				PreReach: preReach, PreNLines: preN, Src: "assumed contract of " + tgt.display + " consistent with the caller's state"})
@@ -127,6 +133,12 @@ func (x *Exec) call(st *State, in ssa.Instruction, cc *ssa.CallCommon, res ssa.V
 	case tgt.fn != nil && x.g.inlinable(x, tgt.fn):
 		results := x.inline(st, tgt, args)
 		x.setResult(res, sig, results)
+		if res != nil && x.lastInlineFlag {
+			if x.flagAlias == nil {
+				x.flagAlias = map[ssa.Value]bool{}
+			}
+			x.flagAlias[res] = true
+		}
 	default:
 		// unknown or external
 		if tgt.external {
@@ -633,6 +645,9 @@ func (x *Exec) callerAcquire(st *State, tgt *target, recv *val, args []val, site
 		env := x.newEnvFor(st, st, tgt.pkg)
 		env.bindCallArgs(tgt, recv, args)
 		env.callee = tgt
+		if tgt.closure != nil {
+			x.bindClosure(env, tgt.fn, tgt.closure)
+		}
 		o := env.eval(le)
 		pt, ok := o.typ.Underlying().(*types.Pointer)
 		if !ok {
@@ -725,6 +740,13 @@ func (x *Exec) inline(st *State, tgt *target, args []val) []string {
 	}
 	s0 := st.clone()
 	child.run(s0)
+	// a helper whose every return hands back a flag-channel field (single result): the caller's value is one too
+	x.lastInlineFlag = len(child.rets) > 0 && fn.Signature.Results().Len() == 1
+	for _, r := range child.rets {
+		if len(r.ssa) != 1 || !child.isFlagChan(r.ssa[0]) {
+			x.lastInlineFlag = false
+		}
+	}
 	if len(child.rets) == 0 {
 		st.reach = "false"
 		var rs []string
